@@ -3,5 +3,6 @@ CONSTANTS
   Polls <- R3
   Pubs <- U3
   Fix = TRUE
-INVARIANTS NoDeadLetter Conservation InOrder NothingLost
+  FixHB = TRUE
+INVARIANTS StaysOnline NoDeadLetter Conservation InOrder NothingLost
 CHECK_DEADLOCK FALSE
